@@ -1,0 +1,50 @@
+//go:build verif
+
+// Contracts for package updater, read by the /verif condition generator (govc).
+// Compiled only with -tags verif; adds no behaviour.
+//
+// Everything about go-selfupdate is ASSUMED from reading its v1.4.1 source (no network in the
+// verification sandbox, nothing can be replayed): see the extern contracts below.
+package updater
+
+func implies(a, b bool) bool { return !a || b }
+
+// OpaqueInstallValidated(n): the n-th write of this run (an install of the executable) went
+// through the configured checksum validator and the bytes matched.
+func OpaqueInstallValidated(n int) bool { return false }
+
+// OpaqueValidSemver: the string parses with Masterminds/semver (MustParse does not panic).
+func OpaqueValidSemver(v string) bool { return true }
+
+// package-level selfupdate.UpdateTo (package.go): uses DefaultUpdater(), which is created
+// with an empty Config - NO validator: the asset is downloaded, decompressed and written over
+// cmdPath without any checksum comparison; on error the executable is left as it was.
+//@ extern selfupdate.UpdateTo
+//@   params ctx assetURL assetFileName cmdPath
+//@   results err
+//@   modifies fsWrites
+//@   ensures fsWrites() <= old(fsWrites())+1
+//@   ensures implies(err != nil, fsWrites() == old(fsWrites()))
+//@   ensures implies(fsWrites() > old(fsWrites()), lastWritePath() == cmdPath && !OpaqueInstallValidated(fsWrites()))
+
+// Release.LessOrEqual (release.go): r.version.Compare(semver.MustParse(other)) <= 0 - it
+// PANICS when `other` is not a semantic version.
+//@ extern selfupdate.Release.LessOrEqual
+//@   params r other
+//@   results le
+//@   requires comparable-version: OpaqueValidSemver(other)
+
+// Updater: installs only when the latest release is strictly newer than the running version,
+// at most once, only over the given (or the running) executable; every failure is returned
+// and leaves the executable untouched; an install must have been checksum-validated.
+//@ contract Updater
+//@   tags C20
+//@   results r err
+//@   requires comparable-version: OpaqueValidSemver(version)
+//@   modifies fsWrites
+//@   ensures[C20] at-most-one-install: fsWrites() <= old(fsWrites())+1
+//@   checks[C20] only-newer: implies(fsWrites() > old(fsWrites()), called(LessOrEqual) && !resultOf(LessOrEqual, 0))
+//@   checks[C20] failure-reported-and-no-install: implies(called(UpdateTo) && resultOf(UpdateTo, 0) != nil, err != nil && fsWrites() == old(fsWrites()))
+//@   checks[C20] detect-failure-reported: implies(called(getLatestVersionFromGitHub) && resultOf(getLatestVersionFromGitHub, 1) != nil, err != nil && fsWrites() == old(fsWrites()))
+//@   checks[C20] replaces-only-the-executable: implies(fsWrites() > old(fsWrites()) && executablePath != "", lastWritePath() == executablePath)
+//@   ensures[C20] install-is-checksum-validated: implies(fsWrites() > old(fsWrites()), OpaqueInstallValidated(fsWrites()))
